@@ -4,6 +4,7 @@
 package simos
 
 import (
+	"errors"
 	"io/fs"
 	"os"
 )
@@ -21,18 +22,41 @@ type Hook interface {
 
 var hook Hook
 
+// dead: a simulated crash (a Crash panic) is unwinding, or has unwound, the code under test. A process that
+// has died does nothing more to the disk, so whatever the unwinding still runs - deferred clean-up in the
+// code under test - finds every filesystem call refused. SetHook revives (the next Write is a new process, or the
+// same one after the harness has caught the panic).
+var dead bool
+
+// ErrDead is what filesystem calls return between a simulated crash and the next SetHook.
+var ErrDead = errors.New("simos: the process has crashed")
+
 // SetHook installs h (nil = pass-through). One simulated run at a time per process.
-func SetHook(h Hook) { hook = h }
+func SetHook(h Hook) { hook, dead = h, false }
+
+func markIfCrash() {
+	if r := recover(); r != nil {
+		if _, ok := r.(Crash); ok {
+			dead = true
+		}
+		panic(r)
+	}
+}
 
 func before(op string, args ...string) error {
+	if dead {
+		return ErrDead
+	}
 	if hook == nil {
 		return nil
 	}
+	defer markIfCrash()
 	return hook.Before(op, args...)
 }
 
 func after(op string, err error) {
-	if hook != nil {
+	if hook != nil && !dead {
+		defer markIfCrash()
 		hook.After(op, err)
 	}
 }
@@ -72,6 +96,7 @@ func WriteFile(name string, data []byte, perm fs.FileMode) error {
 				n = len(data)
 			}
 			os.WriteFile(name, data[:n], perm)
+			dead = true
 			panic(Crash{At: "torn WriteFile " + name})
 		}
 		return err
